@@ -97,6 +97,7 @@ type Explorer struct {
 	res     Result
 	obs     map[string]int
 	start   time.Time
+	lastPath []int32
 }
 
 const (
@@ -208,8 +209,19 @@ func (e *Explorer) newWorld(trace bool) (*vrt.World, *Instance) {
 func (e *Explorer) execute(n *node, stack []*node) []*node {
 	e.res.Executions++
 	w, inst := e.newWorld(false)
-	defer w.Teardown()
+	racesBefore := vrt.RaceErrors()
+	defer func() {
+		w.Teardown()
+		if vrt.RaceBuild && e.res.Violation == nil && vrt.RaceErrors() > racesBefore {
+			// the race detector judged this schedule: a report is a violation of C20
+			e.res.Outcomes["RACE"]++
+			v := &Violation{Scenario: e.Sc.Name, Config: e.Sc.Config, Outcome: "RACE", Choices: e.lastPath,
+				Message: "C20: the race detector reported a data race on this schedule (report in the race log)"}
+			e.res.Violation = v
+		}
+	}()
 	choices := e.path(n)
+	e.lastPath = choices
 	// replay the prefix up to (not including) the last choice
 	var out vrt.Outcome
 	var en []vrt.Trans
@@ -297,7 +309,7 @@ func (e *Explorer) execute(n *node, stack []*node) []*node {
 				}
 			}
 			e.flags[cur.state] |= flagTerminal
-			if e.res.SampleTrace == nil && (out == vrt.Done || out == vrt.Deadlock) {
+			if e.res.SampleTrace == nil && (out == vrt.Done || out == vrt.Deadlock) && !vrt.RaceBuild {
 				tr, _, _ := e.Replay(e.path(cur))
 				if len(tr) > 80 {
 					tr = append(append([]string{}, tr[:60]...), "...")
@@ -340,6 +352,9 @@ func (e *Explorer) execute(n *node, stack []*node) []*node {
 		next := &node{parent: cur, choice: 0, depth: cur.depth + 1, cost: cur.cost + preemptCost(w, en, 0), state: -1}
 		w.Take(en[0])
 		e.res.Transitions++
+		if vrt.RaceBuild {
+			e.lastPath = append(e.lastPath, 0)
+		}
 		cur = next
 	}
 }
